@@ -1,38 +1,25 @@
-(* Line-protocol driver around the code extracted from Coq (ExtrOcamlBasic only).
-   stdin:  one case per line, "<op> <params...> <hex bytes>"
-   stdout: per case two lines, "M <model result>" and "S <spec result>" *)
-module ZA = Z
-open Model
+(* I/O glue around the code extracted from Coq (ExtrOcamlBasic only).  All parsing of the case line and all
+   rendering of results happens inside the extracted function [Model.dispatch]; this file only converts
+   between OCaml strings and Coq byte lists.
+   stdin:  one case per line;  stdout: per case two lines, "M <model result>" and "S <spec result>" *)
 
-let rec pos_of_int (n : int) : positive =
-  if n = 1 then XH else if n land 1 = 0 then XO (pos_of_int (n lsr 1)) else XI (pos_of_int (n lsr 1))
-let n_of_int (n : int) : n = if n = 0 then N0 else Npos (pos_of_int n)
-let rec za_of_pos (p : positive) : ZA.t = match p with
-  | XH -> ZA.one | XO q -> ZA.shift_left (za_of_pos q) 1 | XI q -> ZA.succ (ZA.shift_left (za_of_pos q) 1)
-let str_of_n (x : n) : string = match x with N0 -> "0" | Npos p -> ZA.to_string (za_of_pos p)
-let rec nat_of_int (n : int) : nat = if n = 0 then O else S (nat_of_int (n - 1))
-let bytes_of_hex (h : string) : n list =
-  if h = "-" then [] else
-  List.init (String.length h / 2) (fun i -> n_of_int (int_of_string ("0x" ^ String.sub h (2 * i) 2)))
-let rec int_of_nat (n : nat) : int = match n with O -> 0 | S m -> 1 + int_of_nat m
-let show_runs l = String.concat "," (List.map (fun ((v, a), b) -> Printf.sprintf "%s:%d:%d" (str_of_n v) (int_of_nat a) (int_of_nat b)) l)
-let show_pairs l = String.concat "," (List.map (fun (f, r) -> str_of_n f ^ ":" ^ str_of_n r) l)
+let rec pos_of_int (n : int) : Model.positive =
+  if n = 1 then Model.XH else if n land 1 = 0 then Model.XO (pos_of_int (n lsr 1)) else Model.XI (pos_of_int (n lsr 1))
+let n_of_int (n : int) : Model.n = if n = 0 then Model.N0 else Model.Npos (pos_of_int n)
+let rec int_of_pos (p : Model.positive) : int = match p with
+  | Model.XH -> 1 | Model.XO q -> 2 * int_of_pos q | Model.XI q -> 2 * int_of_pos q + 1
+let int_of_n (x : Model.n) : int = match x with Model.N0 -> 0 | Model.Npos p -> int_of_pos p
+let bytes_table = Array.init 256 n_of_int
+let list_of_string (s : string) : Model.n list = List.init (String.length s) (fun i -> bytes_table.(Char.code s.[i]))
+let string_of_list (l : Model.n list) : string =
+  let b = Buffer.create 256 in List.iter (fun x -> Buffer.add_char b (Char.chr (int_of_n x land 255))) l; Buffer.contents b
 
 let () =
   try
     while true do
       let line = input_line stdin in
-      match String.split_on_char ' ' line with
-      | ["kg"; k; hex] ->
-          let k = nat_of_int (int_of_string k) and s = bytes_of_hex hex in
-          Printf.printf "M %s\nS %s\n" (show_pairs (m_kg k s)) (show_pairs (s_kg k s))
-      | ["mg"; w; m; hex] ->
-          let w = nat_of_int (int_of_string w) and m = nat_of_int (int_of_string m) and s = bytes_of_hex hex in
-          Printf.printf "M %s\nS %s\n" (show_runs (m_mg w m s)) (show_runs (s_mg w m s))
-      | ["first_bad_kmer_table"] ->
-          (match first_bad_kmer_table with
-           | None -> print_endline "M none\nS none"
-           | Some b -> Printf.printf "M %s\nS %s\n" (str_of_n b) (str_of_n b))
-      | _ -> print_endline "M ?\nS ?"
+      let (m, s) = try Model.dispatch (list_of_string line) with Stack_overflow -> (list_of_string "STACK", list_of_string "STACK") in
+      print_string "M "; print_endline (string_of_list m);
+      print_string "S "; print_endline (string_of_list s)
     done
   with End_of_file -> ()
